@@ -1069,7 +1069,9 @@ func (c *Ctx) RequireAnyGate(rule string, fn *ssa.Function, gates []Gate, minSit
 		loops := Loops(fn)
 		var common *Loop
 		ok := true
-		for _, s := range allSites {
+		// the loop is the one holding the sites of the first (primary) gate
+		_, primary := gates[0].PassEdges(fn)
+		for _, s := range primary {
 			l := InnermostLoop(loops, s)
 			if l == nil {
 				ok = false
